@@ -139,6 +139,7 @@ func body(sc *hn.Scenario) func() string {
 // ---- threshold API: explicit-state search against a reference model -----------
 
 type thrModel struct {
+	set       bool // a threshold was explicitly set for the type
 	exists    bool
 	thr, thrS int
 	pipe      bool
@@ -166,7 +167,7 @@ func thrAlphabet() []string {
 		for _, v := range []int{-1, 0, 1, 2} {
 			a = append(a, fmt.Sprintf("setthr %s %d", t, v), fmt.Sprintf("setthrs %s %d", t, v))
 		}
-		a = append(a, "getthr "+t, "getthrs "+t, "regpipe "+t, "send "+t)
+		a = append(a, "getthr "+t, "getthrs "+t, "regpipe "+t, "send "+t, "rmpipe "+t, "rmpipenodes "+t)
 	}
 	a = append(a, "setthr EMPTY 1", "setthrs EMPTY 1")
 	return a
@@ -199,7 +200,7 @@ func (in *thrInst) Apply(op string) (string, string) {
 			return bad("%s(%q,%d) returned %v, want error=%v", kind, t, v, err, wantErr)
 		}
 		if !wantErr {
-			m.exists = true
+			m.exists, m.set = true, true
 			if kind == "setthr" {
 				m.thr = v
 			} else {
@@ -219,10 +220,27 @@ func (in *thrInst) Apply(op string) (string, string) {
 		if !m.exists {
 			want = 0
 		}
+		if !m.set && !m.pipe {
+			if got != 0 {
+				return bad("%s(%s) = %d although no threshold was ever set", kind, t, got)
+			}
+			break
+		}
 		if got != want || ok != m.exists {
 			return bad("%s(%s) = (%d,%v), want (%d,%v): thresholds must read back as last set and never be influenced by another type", kind, t, got, ok, want, m.exists)
 		}
+	case "rmpipe", "rmpipenodes":
+		// removing the type's pipelines does not touch its thresholds: they read back as last set
+		if kind == "rmpipe" {
+			in.b.RemovePipeline(el.EventType(t), "p")
+		} else {
+			in.b.RemovePipelineAndNodes(context.Background(), el.EventType(t), "p")
+		}
+		m.pipe = false
 	case "regpipe":
+		// (re-)register the nodes: RemovePipelineAndNodes may have removed them
+		in.b.RegisterNode(el.NodeID("m"+t), hn.NewNode(in.log, "m"+t, el.NodeTypeFormatter, hn.Pass, nil))
+		in.b.RegisterNode(el.NodeID("s"+t), hn.NewNode(in.log, "s"+t, el.NodeTypeSink, hn.Drop, nil))
 		err := in.b.RegisterPipeline(el.Pipeline{PipelineID: "p", EventType: el.EventType(t), NodeIDs: []el.NodeID{el.NodeID("m" + t), el.NodeID("s" + t)}})
 		if err != nil {
 			return bad("regpipe(%s): %v", t, err)
@@ -247,6 +265,13 @@ func (in *thrInst) Apply(op string) (string, string) {
 		wa, wb := mm.thr, mm.thrS
 		if !mm.exists {
 			wa, wb = 0, 0
+		}
+		if !mm.set && !mm.pipe {
+			// never set, no pipeline: whether the type counts as "registered" is not part of the property
+			if a != 0 || b != 0 {
+				return bad("after %q: thresholds of %s read %d/%d although none was ever set", op, ty, a, b)
+			}
+			continue
 		}
 		if a != wa || b != wb || ok1 != mm.exists || ok2 != mm.exists {
 			return bad("after %q: thresholds of %s read (%d,%v)/(%d,%v), model says (%d,%d,registered=%v)", op, ty, a, ok1, b, ok2, wa, wb, mm.exists)
@@ -300,7 +325,7 @@ func main() {
 			ex := &vrt.Explorer{Bound: sc.Bound, Body: body(sc)}
 			return hk.ExploreJob(prop, job, deadline, ex, sc.Describe())
 		},
-		Rule: "(a) outcome vectors (sink-ok / filtered / formatter-drop / error at root / error at sink / sink passing the event) of 1..3 pipelines x both thresholds over the full square -1(unset),0..P+1 (P<=2) or the boundary pairs around the vector's own counts (P=3) x shared sink ids x context never cancelled / cancelled at every scheduling point / cancelled before the call, all schedules within the preemption bound; oracle: Status ids, complete-sinks, warnings (pointer-equal to the nodes' own errors), completes+warnings=pipelines without cancel, error iff a threshold is missed, errors.Is(ctx.Err()) when entries are missing. (b) BFS over the threshold API (setters with -1..2 and an empty type, getters, RegisterPipeline, Send on two event types) against a reference model, every getter compared after every step.",
+		Rule: "(a) outcome vectors (sink-ok / filtered / formatter-drop / error at root / error at sink / sink passing the event) of 1..3 pipelines x both thresholds over the full square -1(unset),0..P+1 (P<=2) or the boundary pairs around the vector's own counts (P=3) x shared sink ids x context never cancelled / cancelled at every scheduling point / cancelled before the call, all schedules within the preemption bound; oracle: Status ids, complete-sinks, warnings (pointer-equal to the nodes' own errors), completes+warnings=pipelines without cancel, error iff a threshold is missed, errors.Is(ctx.Err()) when entries are missing. (b) BFS over the threshold API (setters with -1..2 and an empty type, getters, RegisterPipeline, RemovePipeline, RemovePipelineAndNodes, Send on two event types) against a reference model, every getter compared after every step.",
 		Assumptions: []string{
 			"traversal ends are reconstructed from the recording nodes' log by the C01 matching; a C01 failure is reported as such",
 			"'error wraps the context error' is only demanded when the Status shows missing entries or the context was cancelled before the call (otherwise the cancel may land after Send read ctx.Err())",
